@@ -78,6 +78,39 @@ func (m *Machine) obligation(kind, label string, c *Term, fr *Frame) {
 		ob.Pos = fr.fn.Name()
 	}
 	tb := m.tb
+	if m.twice && kind != "note" {
+		if m.run != 2 {
+			m.events1 = append(m.events1, c20event{kind: kind, label: label, cond: c})
+		} else {
+			// repeated execution: the same event must occur, with the same truth value
+			if m.evIdx >= len(m.events1) || m.events1[m.evIdx].kind != kind || m.events1[m.evIdx].label != label {
+				m.c20mismatch("the repeated execution takes a different course at " + kind + " '" + label + "'")
+				return
+			}
+			first := m.events1[m.evIdx]
+			m.evIdx++
+			if kind == "assert" {
+				same := tb.Eq(first.cond, c)
+				ob2 := Obligation{Label: "C20.1 repeated execution in the same process (other map order, other clock): same outcome", Kind: "assert"}
+				if same.True() {
+					ob2.Verdict, ob2.Trivial = "holds", true
+				} else {
+					v, model := m.sol.Check(tb, []*Term{tb.Not(same)}, m.inputTerms())
+					switch v {
+					case Unsat:
+						ob2.Verdict = "holds"
+					case Sat:
+						ob2.Verdict = "violated"
+						ob2.Model = m.extractModel(model)
+					default:
+						ob2.Verdict = "unknown"
+					}
+				}
+				m.res.Obligations = append(m.res.Obligations, ob2)
+			}
+			return
+		}
+	}
 	switch kind {
 	case "reach":
 		// the path condition is satisfiable by construction; produce a witness model
@@ -130,7 +163,31 @@ func (m *Machine) obligation(kind, label string, c *Term, fr *Frame) {
 var vpOnce sync.Once
 
 func registerVP(p *Program) {
-	reg := func(name string, f Intrinsic) { p.intrinsics[vpPath+name] = f }
+	isInput := map[string]bool{"Bool": true, "Byte": true, "Uint64": true, "Uint32": true, "Int64": true, "Choice": true, "String": true, "Bytes": true}
+	reg := func(name string, f Intrinsic) {
+		if !isInput[name] {
+			p.intrinsics[vpPath+name] = f
+			return
+		}
+		// second execution of a -twice run: the same inputs, in the same order
+		p.intrinsics[vpPath+name] = func(m *Machine, fr *Frame, fn *ssa.Function, a []Value) Value {
+			if m.run != 2 {
+				return f(m, fr, fn, a)
+			}
+			if m.inputIdx >= m.nInputs1 {
+				m.c20mismatch("the repeated execution asks for more inputs than the first one")
+			}
+			rec := m.inputs[m.inputIdx]
+			m.inputIdx++
+			switch rec.Kind {
+			case "string":
+				return &Str{b: rec.Terms}
+			case "bytes":
+				return m.mkBytes(rec.Terms)
+			}
+			return rec.Terms[0]
+		}
+	}
 	reg("Bool", func(m *Machine, fr *Frame, fn *ssa.Function, a []Value) Value {
 		name := m.uniqueName(cstr(a[0]))
 		t := m.tb.Var(name, 0)
